@@ -197,3 +197,54 @@ def run(coro_fn: Callable[[], Awaitable[Any]]):
         finally:
             asyncio.set_event_loop(None)
             loop.close()
+
+
+# ----------------------------------------------------------------------------------------------------------------------
+# appended for C38 (connection histories): a lightweight websocket stand-in and the endpoint's way of closing it
+
+class WsChannel:
+    """Stand-in for the `RpcChannel` of one engine websocket: exactly what `AggregatorDispatcher` touches -
+    `close()`, `other.get_engine_id_async()`, `other.dispatch_message_async(message_json=...)`. Cheaper than a Mock
+    (no magic-method setup), hashable and compared by identity like the real channel."""
+
+    class _Other:
+        def __init__(self, owner: "WsChannel"):
+            self._owner = owner
+            self.dispatch_message_async = owner.script.dispatch_message_async
+
+        async def get_engine_id_async(self):
+            from fastapi_websocket_rpc.schemas import RpcResponse
+            return RpcResponse[str | None](result=self._owner.reported_id, result_type=None)
+
+    def __init__(self, reported_id: str | None):
+        self.reported_id = reported_id
+        self.script = RpcScript()
+        self.close_calls = 0            # how often the server side closed this websocket
+        self.default_response_timeout = None
+        self.other = WsChannel._Other(self)
+
+    async def close(self):
+        self.close_calls += 1
+
+
+async def ws_open(rig: FrontendRig, reported_id: str | None) -> WsChannel:
+    """A websocket opens and answers `get_engine_id_async` with `reported_id` (the body of the task that
+    `AggregatorDispatcher.on_client_connect` spawns)."""
+    ch = WsChannel(reported_id)
+    await rig.dispatcher._on_delayed_client_connect(ch)  # type: ignore
+    return ch
+
+
+async def ws_closed(rig: FrontendRig, channel) -> BaseException | None:
+    """The websocket behind `channel` closes, the way the real server handles it:
+    `WebsocketRPCEndpoint.main_loop` -> `handle_disconnect` -> `RpcChannel.on_disconnect` = `asyncio.gather` over the
+    endpoint's on_disconnect handler list (here: `AggregatorDispatcher.on_client_disconnect`); an exception raised by
+    a handler ends in main_loop's outer `except:` which logs "Failed to serve" and goes on serving the other
+    connections. The swallowed exception is returned (None if the handlers returned normally)."""
+    handlers = rig.dispatcher.endpoint._on_disconnect
+    try:
+        with rig.database.create_scope():
+            await asyncio.gather(*(h(channel) for h in handlers))
+    except Exception as ex:  # noqa - mirrors the endpoint
+        return ex
+    return None
